@@ -34,6 +34,52 @@ def timing_specs():
     return {"none": None, "N": ("N", 7), "R1": ("R", 1, 0), "R2": ("R", 2, 3), "I": "I"}
 
 
+def empty_irregular_receiver_cases(ctx, report):
+    """append([...]) into receivers whose irregular timing holds no timestamps yet (and some that hold a few), with every pattern of empty
+    and non-empty sources: afterwards every source, every Timing object a source held (possibly shared with a bystander waveform) and the
+    caller's list are exactly what they were; `report(info)` is called for each difference"""
+    import itertools as _it
+    import numpy as _np
+    from nitypes.waveform import AnalogWaveform, ComplexWaveform, DigitalWaveform, SampleIntervalMode, Timing
+    t0 = dt.datetime(2025, 1, 1, tzinfo=dt.timezone.utc)
+    n = 0
+    for cls in (AnalogWaveform, ComplexWaveform, DigitalWaveform):
+        def mk(k, start, timing=None):
+            tm = timing if timing is not None else Timing.create_with_irregular_interval([t0 + dt.timedelta(seconds=start + i) for i in range(k)])
+            if cls is DigitalWaveform:
+                return DigitalWaveform(k, 1, timing=tm)
+            return cls(k, _np.float64 if cls is AnalogWaveform else _np.complex128, timing=tm)
+        for rn in (0, 2):
+            for lens in _it.chain.from_iterable(_it.product((0, 1, 2), repeat=r) for r in (1, 2, 3, 4)):
+                for tail in ("ok", "non-monotonic", "regular"):
+                    if tail != "ok" and (len(lens) < 2 or lens[-1] == 0):
+                        continue
+                    recv = mk(rn, 0)
+                    srcs, start = [], 10
+                    for k in lens:
+                        srcs.append(mk(k, start)); start += max(k, 1) + 1
+                    if tail == "non-monotonic":
+                        srcs[-1] = mk(lens[-1], -50)
+                    elif tail == "regular":
+                        srcs[-1] = mk(lens[-1], 0, Timing.create_with_regular_interval(dt.timedelta(seconds=1)))
+                    held = [x.timing for x in srcs]
+                    bystanders = [mk(len(h._timestamps) if h._timestamps is not None else 0, 0, h) if h.sample_interval_mode == SampleIntervalMode.IRREGULAR else None for h in held]
+                    snap = [(x.sample_count, None if h._timestamps is None else list(h._timestamps), repr(h)) for x, h in zip(srcs, held)]
+                    o = outcome(recv.append, srcs if len(srcs) > 1 else srcs[0])
+                    n += 1
+                    ctx.case(("empty-irregular-receiver", cls.__name__, rn, lens, tail))
+                    for i, (x, h) in enumerate(zip(srcs, held)):
+                        now = (x.sample_count, None if h._timestamps is None else list(h._timestamps), repr(h))
+                        same_obj = x.timing is h
+                        by = bystanders[i]
+                        by_ok = by is None or (by.timing is h and outcome(lambda: len(list(by.timing.get_timestamps(0, by.sample_count))))[0] == "ok")
+                        if now != snap[i] or not same_obj or not by_ok:
+                            report(dict(what="an append changed one of its sources / a Timing object a source held", cls=cls.__name__, receiver_timestamps=rn, source_lengths=str(lens), last_source=tail, source=i,
+                                        call_outcome=show(o)[:80], observed=f"{now[0]} samples, {None if now[1] is None else len(now[1])} timestamps", required=f"{snap[i][0]} samples, {None if snap[i][1] is None else len(snap[i][1])} timestamps, the same Timing object"))
+                            return n
+    return n
+
+
 def run(ctx):
     # ExtendedPropertyDictionary as regenerated from the source (tier T14: Gen/ExtProps.lean) against the real class with a listener
     from props import extprops_harness
@@ -460,6 +506,7 @@ def run(ctx):
                                       source_offsets=str([float(x) for x in ssecs]), observed=f"{show(o)[:80]} timestamps={[str(g) for g in got]}"[:300],
                                       required=("the receiver's timestamps followed by the source's, unchanged in value and type" if mono else "ValueError (not monotonic), receiver unchanged"))
                         break
+    ctx.extra["empty_irregular_receiver_cases"] = empty_irregular_receiver_cases(ctx, lambda v: ctx.violation(**v))
     # seeded repeated appends
     w = {"appa": 3, "appw": 8, "load": 1, "setcount": 1, "setcap": 1, "settiming": 2, "write": 0, "get": 0, "pickle": 0, "bad": 0}
     mark = len(world.records)
